@@ -8,6 +8,46 @@ from multiprocessing import Pool
 from h5 import lean
 
 
+FORMATTING = ["b", "i", "font", "nobr", "em", "strong", "u", "s", "tt", "code", "big", "small", "strike", "a"]
+
+
+def targeted(ctx, T):
+    """deterministic + seeded hard patterns that random soup reaches too rarely (kept small; every case is
+    (text, container, scripting, namespaceHTMLElements))"""
+    rng = ctx.rng
+    out = []
+    # 1. Noah's ark clause: k copies of one formatting element with equal / differently-valued / differently-named attributes
+    variants = [lambda j: "", lambda j: " class=k", lambda j: " size=%d" % j, lambda j: " id=x%d class=c" % j,
+                lambda j: " a%d=1" % j, lambda j: " size=1" if j % 2 else " size=2", lambda j: " x=1 y=%d" % (j // 2)]
+    for tag in (FORMATTING if ctx.tier == "thorough" else rng.sample(FORMATTING, 5)):
+        for k in (3, 4, 5):
+            for v in variants:
+                opens = "".join("<%s%s>" % (tag, v(j)) for j in range(k))
+                for wrap, close in (("<p>", "</p>"), ("<div>", "</div>"), ("", ""), ("<p>", "<p>")):
+                    out.append((wrap + opens + "a" + close + "x", None, False, True))
+                out.append(("<div>" + opens + "</div>q", "div", False, True))
+    # 2. pre / listing / textarea and the drop-newline handler: what follows the start tag
+    bits = ["\n", "&#10;", "x", "</i>", "\x00", "<!--c-->", " ", "<b>", "\n\n", "&#13;"]
+    import itertools
+    for tag in ("pre", "listing", "textarea"):
+        for n in (1, 2, 3):
+            combos = list(itertools.product(bits, repeat=n))
+            if n == 3 and ctx.tier != "thorough":
+                combos = rng.sample(combos, 150)
+            for c in combos:
+                out.append(("<%s>%s</%s>y" % (tag, "".join(c), tag), rng.choice([None, None, "div"]), False, True))
+    # 3. every start/end tag right after </head>, after <head>, after <html>, after </body>, in table/select/frameset contexts
+    names = sorted(set(T.dispatch_names())) if hasattr(T, "dispatch_names") else []
+    names = [n for n in names if n and all(c.isalnum() for c in n)][:160]
+    ctxs = ["<head></head>%s", "<head>%s", "<html>%s", "<body></body>%s", "<table>%s", "<table><tr>%s", "<select>%s",
+            "<frameset>%s", "<table><caption>%s", "<svg>%s", "<math><mi>%s", "<table><colgroup>%s", "</html>%s"]
+    for n in names:
+        for c in (ctxs if ctx.tier == "thorough" else rng.sample(ctxs, 4)):
+            for sc in (False, True):
+                out.append((c % ("<%s>x</%s>y<p>z" % (n, n)), None, sc, True))
+    return out
+
+
 def run(ctx, count, modes=("soup",), exh_len=2, exh_limit=0, builders=("dom", "etree")):
     sys.path.insert(0, lean.VERIF + "/tools")
     import tree_corr as T
@@ -15,6 +55,8 @@ def run(ctx, count, modes=("soup",), exh_len=2, exh_limit=0, builders=("dom", "e
 
     def stream():
         for c in T.FIXED_CASES:
+            yield c
+        for c in targeted(ctx, T):
             yield c
         if "soup" in modes:
             for i in range(count):
